@@ -239,7 +239,7 @@ func (wr *Writer) tightSlice(rv reflect.Value, si *sinfo) {
 	wr.buf = append(wr.buf, '[')
 	for j := 0; j < end; j++ {
 		rm := rv.Index(j)
-		if rm.Kind() == reflect.Ptr {
+		if rm.Kind() == reflect.Ptr && !rm.IsNil() {
 			rm = rm.Elem()
 		}
 		switch rm.Kind() {
@@ -272,10 +272,13 @@ func (wr *Writer) tightMap(rv reflect.Value, si *sinfo) {
 	for _, kv := range keys {
 		rm := rv.MapIndex(kv)
 		if rm.Kind() == reflect.Ptr {
-			if wr.OmitNil && rm.IsNil() {
-				continue
+			if rm.IsNil() {
+				if wr.OmitNil {
+					continue
+				}
+			} else {
+				rm = rm.Elem()
 			}
-			rm = rm.Elem()
 		}
 		switch rm.Kind() {
 		case reflect.Struct:
